@@ -767,3 +767,61 @@ def reaching_defs(cfg, params=()):
                 if changed:
                     work.append(e.dst)
     return IN
+
+
+def expr_context_facts(node, stop=None):
+    """Facts implied by the *expression context* of ``node`` inside its
+    statement: preceding operands of and/or, the test of a conditional
+    expression, the ``if`` clauses of enclosing comprehensions."""
+    res = []
+    child = node
+    cur = getattr(node, '_parent', None)
+    while cur is not None and not isinstance(cur, (ast.stmt,
+                                                   ast.ExceptHandler)):
+        if isinstance(cur, ast.BoolOp):
+            idx = None
+            for i, v in enumerate(cur.values):
+                if v is child:
+                    idx = i
+            if idx:
+                pol = isinstance(cur.op, ast.And)
+                for v in cur.values[:idx]:
+                    res.extend(decompose(v, pol))
+        elif isinstance(cur, ast.IfExp):
+            if child is cur.body:
+                res.extend(decompose(cur.test, True))
+            elif child is cur.orelse:
+                res.extend(decompose(cur.test, False))
+        elif isinstance(cur, (ast.ListComp, ast.GeneratorExp, ast.SetComp,
+                              ast.DictComp)):
+            is_elt = child is getattr(cur, 'elt', None) or child is getattr(
+                cur, 'key', None) or child is getattr(cur, 'value', None)
+            if is_elt:
+                for g in cur.generators:
+                    for c in g.ifs:
+                        res.extend(decompose(c, True))
+        elif isinstance(cur, ast.comprehension):
+            # a later if-clause / nested iter sees earlier if-clauses
+            if child in cur.ifs:
+                for c in cur.ifs[:cur.ifs.index(child)]:
+                    res.extend(decompose(c, True))
+        elif isinstance(cur, ast.Lambda):
+            break
+        child = cur
+        cur = getattr(cur, '_parent', None)
+    return [fact_key(x, p) for (x, p) in res]
+
+
+def facts_at(func, node):
+    """Must-facts holding when expression ``node`` of ``func`` is evaluated:
+    CFG guard facts of the owning statement + expression context."""
+    cfg = cfg_of(func)
+    key = ('gf', id(func))
+    if key not in _cfg_cache:
+        _cfg_cache[key] = (func, cfg.guard_facts())
+    IN, OUT = _cfg_cache[key][1]
+    n = expr_owner_node(cfg, node)
+    base = IN.get(n) if n is not None else None
+    res = set(base or ())
+    res.update(expr_context_facts(node))
+    return res
